@@ -78,8 +78,8 @@ variable {F : Type} [NumAlg F]
 (elements, text, comments, the root *and attributes*), and every predicate-free location path over
 the twelve axes with any node tests, the plan the builder model produces — with all its rewrites:
 the `//name` shortcut, descendant-over-descendant, `cachedChild` — yields exactly the XPath 1.0
-node-set of the path.  Neither side fails.  `HashInj` is the documented NoFnvCollision assumption
-(the ancestor axes de-duplicate by identity hash); `cfg.nsIface` says the navigator exposes
+node-set of the path.  Neither side fails.  `HashInj` says that the node key the ancestor
+axes de-duplicate with is injective (a theorem: `PathSem.hashInj_holds`, see `C01_main_unconditional`); `cfg.nsIface` says the navigator exposes
 namespace URIs.  The builder configuration is the one read off the current source. -/
 theorem C01_main {d : Doc} (wf : WF d) (cfg : ECfg) (hns : cfg.nsIface = true)
     (hinj : PathSem.HashInj d cfg) (regexOk : RegexOk) (limit : Nat) (p : Ast) (hp : PathSem.PathPF p)
@@ -89,6 +89,17 @@ theorem C01_main {d : Doc} (wf : WF d) (cfg : ECfg) (hns : cfg.nsIface = true)
     ∃ out ns, sel (F := F) d cfg o.q c = .ok out ∧
       Spec.evalTop (F := F) d p c = .ok (.nodes ns) ∧ ∀ x, x ∈ PathSem.refs out ↔ x ∈ ns :=
   PathSem.C01_source_config wf cfg hns hinj regexOk limit p hp o hb c hc
+
+/-- `C01_main` without the `HashInj` hypothesis (it is a theorem now: `hashInj_holds`; the side
+condition left is "no element has two attributes with the same prefix, name and value") -/
+theorem C01_main_unconditional {d : Doc} (wf : WF d) (cfg : ECfg) (hns : cfg.nsIface = true)
+    (hattr : AttrTriplesDistinct d) (regexOk : RegexOk) (limit : Nat) (p : Ast) (hp : PathSem.PathPF p)
+    (o : BOut)
+    (hb : build regexOk limit shortcutNeedsNodeTestFromSource smartDescThroughFilterFromSource p {} {} = .ok o)
+    (c : Ref) (hc : validRef d c = true) :
+    ∃ out ns, sel (F := F) d cfg o.q c = .ok out ∧
+      Spec.evalTop (F := F) d p c = .ok (.nodes ns) ∧ ∀ x, x ∈ PathSem.refs out ↔ x ∈ ns :=
+  C01_main wf cfg hns (PathSem.hashInj_holds wf hattr cfg) regexOk limit p hp o hb c hc
 
 /-- a single step from any valid context node: the walk of each of the twelve axes is the XPath axis -/
 theorem C01_single_step {d : Doc} (wf : WF d) (o : Ref) (ho : validRef d o = true) (ax : String)
@@ -113,5 +124,25 @@ theorem C01_from_text {d : Doc} (wf : WF d) (cfg : ECfg) (hns : cfg.nsIface = tr
     ∃ l nsl, selectAll (F := F) d cfg p c = .ok l ∧
       Spec.evalTop (F := F) d a c = .ok (.nodes nsl) ∧ ∀ x, x ∈ l ↔ x ∈ nsl :=
   C01_compile_source wf cfg hns hinj regexOk ns text a hparse hpf p hcomp c hc
+
+open XPathV.PathSem XPathV.ApiSem in
+/-- `C01_from_text` without the `HashInj` hypothesis (it is a theorem now: `hashInj_holds`; the side
+condition left is "no element has two attributes with the same prefix, name and value") -/
+theorem C01_from_text_unconditional {d : Doc} (wf : WF d) (cfg : ECfg) (hns : cfg.nsIface = true)
+    (hattr : AttrTriplesDistinct d) (regexOk : RegexOk) (ns : Option (List (String × String)))
+    (text : List Char) (a : Ast) (hparse : parse (fuelFor text) (defaultCfg ns) text = .ok a)
+    (hpf : PathPF a) (p : Plan) (hcomp : compile { regexOk := regexOk } ns text = .ok p)
+    (c : Ref) (hc : validRef d c = true) :
+    ∃ l nsl, selectAll (F := F) d cfg p c = .ok l ∧
+      Spec.evalTop (F := F) d a c = .ok (.nodes nsl) ∧ ∀ x, x ∈ l ↔ x ∈ nsl :=
+  C01_from_text wf cfg hns (PathSem.hashInj_holds wf hattr cfg) regexOk ns text a hparse hpf p hcomp
+    c hc
+
+/-- T0: `ancestor::` tells the nodes it has seen apart by the node key string itself — `getNodeKey` writes the node
+type first and returns the buffer's string; no table of `query.go` is keyed by a 64-bit number (until e5691be the
+FNV-64a hash of the key was the identity and an ancestor whose key collided with another's was lost) -/
+theorem identity_is_the_key_string :
+    Generated.nodeKeyHead = ["sb.WriteString(strconv.Itoa(int(n.NodeType())))", "sb.WriteByte(':')"] ∧
+    Generated.nodeKeyIsString = true := ⟨rfl, rfl⟩
 
 end XPathV.Theorems.C01
